@@ -568,7 +568,7 @@ pub fn run(prop: &'static str, tier: Tier) -> i32 {
         )
     } else {
         (
-            "same histories as C07 x ledgers with/without a dangling pre-authorisation (also created naturally by no-receipt reservations and aborted reversals) x end-of-day outcomes {completion, abort a0, other codes; all 256 codes once} x dangling-reversal outcomes. Oracle over the decoded request log of each accepted commit/cancel: own exchange completed and no token open => exactly pending query -> reversal of the reported receipt (iff one is reported) -> end-of-day(password), result Ok on completion or a0, Aborted(c) otherwise; tokens still open => no pending query and no end-of-day. non-trivial = history in which one commit/cancel leaves others open and a later one empties the map; distinct by history",
+            "same histories as C07 (receipt numbers 0000..9999, 0000 over-weighted) x ledgers with/without a dangling pre-authorisation (also created naturally by no-receipt reservations and aborted reversals) x end-of-day outcomes {completion, abort a0, other codes; all 256 codes once} x dangling-reversal outcomes. Oracle over the decoded request log of each accepted commit/cancel: own exchange completed and no token open => exactly pending query -> reversal of the reported receipt (iff one is reported) -> end-of-day(password), result Ok on completion or a0, Aborted(c) otherwise; tokens still open => no pending query and no end-of-day. non-trivial = history in which one commit/cancel leaves others open and a later one empties the map; distinct by history",
             vec!["the simulated terminal reports the dangling pre-authorisation (or its lowest open receipt) to the FFFF query, as the captured partial_reversal.blob does", "requests are decoded by the reference codec"],
         )
     };
